@@ -18,7 +18,7 @@ echo "demo: clean exit=$CLEAN mutated exit=$MUT"
 SUITEPID=$!
 RES=""
 for c in $CHECKS; do
-  ( cd /verif && VERIF_REPO=$WT timeout 1500 ./check $c > /tmp/seed_check_$c.log 2>&1 ); rc=$?
+  ( cd /verif && VERIF_BUILD_TAG=seed VERIF_REPO=$WT timeout 1500 ./check $c > /tmp/seed_check_$c.log 2>&1 ); rc=$?
   v=$(grep -c "^VIOLATION" /tmp/seed_check_$c.log)
   nf=$(grep -c "no-failing-input-found" /tmp/seed_check_$c.log)
   echo "check $c: exit=$rc violations=$v (no-failing-input-found: $nf)"
